@@ -29,6 +29,7 @@ type RunConfig struct {
 	Workers      int
 	ScheduleMode bool
 	MapOrderMode bool
+	MapOrderFilter string
 	PreemptBound int
 	PoolDirty    bool
 	Race         bool
@@ -73,6 +74,7 @@ func newEngine(ld *Loader, cfg RunConfig, stats *SolverStats) *Engine {
 	e.params = cfg.Params
 	e.scheduleMode = cfg.ScheduleMode
 	e.mapOrderMode = cfg.MapOrderMode
+	e.mapOrderFilter = cfg.MapOrderFilter
 	e.preemptBound = cfg.PreemptBound
 	e.poolDirty = cfg.PoolDirty
 	e.cexSeen = map[string]bool{}
